@@ -214,8 +214,15 @@ def main():
         ct = C.CONTRACTS[cid]
         sat_obs = [o for o in obs if o["verdict"] == "sat"] or [o for o in obs if o["verdict"] != "unsat"]
         concrete = None
+        # (0) data obligations carry a text that was already replayed with python's re on the pattern read from the repository file
+        for o in sat_obs:
+            if ct.func == "<regex-data>" and (o.get("model") or {}).get("replayed"):
+                concrete = {"input": o["model"], "violated": [o["label"]], "source": "solver model, replayed with re.match on the file's pattern"}
+                break
         # (1) replay the model's inputs on the real function
         for o in sat_obs:
+            if concrete is not None:
+                break
             if o.get("model") and ct.bounded is not None and not a.no_rt and model_is_replayable(ct, o["model"]):
                 rep = conc({"op": "replay", "cid": cid, "inputs": o["model"]})
                 if rep.get("violated"):
